@@ -173,15 +173,26 @@ func aggregate(obs []*Oblig) map[string]*Agg {
 			a.Status = "refuted"
 			a.Detail = o.Pos + " " + o.Trail
 		case "infeasible":
-			if a.Status == "discharged" {
-				a.Status = "infeasible"
-				a.Detail = o.Trail
-			}
+			// vacuity guard: some instance of a reach check must be satisfiable (handled below)
 		default:
 			if a.Status != "refuted" {
 				a.Status = "unknown"
 				a.Detail = o.Pos + " " + o.Trail + " " + o.Detail
 			}
+		}
+	}
+	for _, a := range out {
+		if a.Kind != "reach" && a.Kind != "canary" {
+			continue
+		}
+		feasible := false
+		for _, o := range a.Insts {
+			if o.Status == "discharged" {
+				feasible = true
+			}
+		}
+		if !feasible {
+			a.Status = "infeasible"
 		}
 	}
 	return out
